@@ -33,13 +33,61 @@ def close(a, b, tol=TOL):
     return abs(a - b) <= tol * (1 + abs(b))
 
 
-def check_instance(spec, truth, interface):
+HISTORIES = ["plain", "plain", "two_steps_aux_var", "sorted", "reversed", "copy", "pickle", "readd_first", "context_edit"]
+
+
+def build_with_history(spec, history):
+    """The same flux-balance problem reached through different public-API histories."""
+    import pickle
+    if history == "two_steps_aux_var" and len(spec["rxns"]) >= 2:
+        k = len(spec["rxns"]) // 2
+        first = dict(spec, rxns=spec["rxns"][:k], obj={}, groups=[])
+        m = coreops.build_model(first)
+        aux = m.problem.Variable("aux_user_variable", lb=0, ub=1)
+        m.add_cons_vars([aux])
+        from cobra import Metabolite, Reaction
+        rx = []
+        for r in spec["rxns"][k:]:
+            R = Reaction(r["id"], lower_bound=coreops.fl(r["lb"]), upper_bound=coreops.fl(r["ub"]))
+            R.add_metabolites({(m.metabolites.get_by_id(x) if x in m.metabolites else Metabolite(x, compartment="c")): coreops.fl(c)
+                               for x, c in r["st"].items()})
+            rx.append(R)
+        m.add_reactions(rx)
+        if spec["obj"]:
+            m.objective = {m.reactions.get_by_id(x): coreops.fl(c) for x, c in spec["obj"].items()}
+        m.objective_direction = spec["dir"]
+        return m
+    m = coreops.build_model(spec)
+    if history == "sorted":
+        m.reactions.sort()
+        m.metabolites.sort()
+    elif history == "reversed":
+        m.reactions.reverse()
+    elif history == "copy":
+        m = m.copy()
+    elif history == "pickle":
+        m = pickle.loads(pickle.dumps(m))
+    elif history == "readd_first" and len(m.reactions) > 1:
+        R = m.reactions[0]
+        coef = R.objective_coefficient
+        m.remove_reactions([R])
+        m.add_reactions([R])
+        if coef:
+            R.objective_coefficient = coef
+    elif history == "context_edit":
+        with m:
+            m.reactions[0].bounds = (0, 0)
+            m.slim_optimize()
+    return m
+
+
+def check_instance(spec, truth, interface, history="plain"):
     """Compare cobrapy on one instance with the certified truth.  Returns a list of failure strings."""
     fails = []
     (n, vb, rows, c), rids, mids, sign = fbagen.net_lp(spec)
     with warnings.catch_warnings():
         warnings.simplefilter("ignore")
-        m = coreops.build_model(spec)
+        m = build_with_history(spec, history)
         if interface != "glpk":
             m.solver = interface
         before = canon.content_dump(m)
@@ -154,7 +202,7 @@ def run(ctx):
         if "spec" in v:
             lp = fbagen.net_lp(v["spec"])[0]
             truth = lpcert.certify([lp])[0]
-            fails = check_instance(v["spec"], truth, v.get("interface", "glpk"))
+            fails = check_instance(v["spec"], truth, v.get("interface", "glpk"), v.get("history", "plain"))
             print(json.dumps({"spec": v["spec"], "truth": truth["status"], "failures": fails}, indent=1, default=str))
             if fails:
                 print(f"VIOLATION property=C04 replay={ctx.replay}")
@@ -170,6 +218,7 @@ def run(ctx):
     done = 0
     certs = 0
     ifaces = {"glpk": 0, "glpk_exact": 0}
+    hist = {}
     while done < n and not ctx.violations:
         specs = [fbagen.gen_fba_spec(rng) for _ in range(min(200, n - done))]
         truths = lpcert.certify([fbagen.net_lp(s)[0] for s in specs])
@@ -179,13 +228,15 @@ def run(ctx):
             split[truth["status"]] += 1
             iface = "glpk_exact" if rng.random() < (0.25 if ctx.tier == "quick" else 0.4) else "glpk"
             ifaces[iface] += 1
-            fails = check_instance(spec, truth, iface)
+            history = rng.choice(HISTORIES)
+            hist[history] = hist.get(history, 0) + 1
+            fails = check_instance(spec, truth, iface, history)
             if truth["status"] == "optimal" and truth["value"] != 0:
                 distinct.add(json.dumps(spec["rxns"], sort_keys=True))
             if len(samples) < 3:
                 samples.append({"spec": spec, "certified": truth["status"], "value": str(truth["value"])})
             if fails:
-                ctx.violations.append({"engine": "cobrapy vs certified exact LP", "spec": spec, "interface": iface,
+                ctx.violations.append({"engine": "cobrapy vs certified exact LP", "spec": spec, "interface": iface, "history": history,
                                        "certified": truth["status"], "certified_value": str(truth.get("value")), "failures": fails[:6]})
                 if len(ctx.violations) >= 3:
                     break
@@ -199,6 +250,7 @@ def run(ctx):
         "certificates_checked_by_lean": certs,
         "verdict_split": split,
         "interfaces": ifaces,
+        "build_histories": hist,
         "traces_validated_against_impl": done,
     })
     ctx.assumptions += [
